@@ -289,7 +289,7 @@ class Emitter:
             o.append("%s%s; %s->slot[%d] = 0;" % (ind, fl.call(
                 "yy_delete_buffer", "(yybuffer) %s->slot[%d]" % (C, op[1])), C, op[1]))
         elif k in ("gcreate", "gswitch", "gpush", "gpop", "gdelete", "gscan_bytes",
-                   "gscan_string", "gscan_buffer", "gflush", "greflush", "gdelrestart"):
+                   "gscan_string", "gscan_buffer", "gflush", "greflush", "gdelrestart", "gdelpush"):
             self.uses.add("bufhelpers")
             args = [str(a) for a in op[1:]]
             if k == "gcreate" and len(op) < 4:
@@ -441,7 +441,7 @@ class Emitter:
                           "vfb_scan_string(int s, int si%s)" % pa,
                           "vfb_scan_buffer(int s, int si, int ok%s)" % pa,
                           "vfb_flush(int s%s)" % pa, "vfb_reflush(int s%s)" % pa,
-                          "vfb_delrestart(int src%s)" % pa,
+                          "vfb_delrestart(int src%s)" % pa, "vfb_delpush(int s%s)" % pa,
                           "vfb_delete_all(%s)" % p0):
                 L.append("static void %s;" % proto)
         L.append("%}")
@@ -978,6 +978,12 @@ class Emitter:
                  "%s->slot[s] = (void *) %s; %s->slotsrc[s] = src; }" % (
                      PA, c, c, c, c, c, call("yy_delete_buffer", "(yybuffer) %s->slot[s]" % c), c,
                      call("yyrestart", "%s->src[src].fp" % c), c, self.cur_buffer(), c))
+        H.append("static void vfb_delpush(int s%s) { char b[64]; int cur = %s->bstk[%s->bdepth - 1]; "
+                 "if (!%s->slot[s] || vfb_onstack(s)) { vfb_skip(\"delpush\"); return; } "
+                 "snprintf(b, sizeof b, \"delpush %%d %%d\", cur, s); vf_X(%s, b); "
+                 "%s; vfb_free(cur); %s; %s->bstk[%s->bdepth - 1] = s; }" % (
+                     PA, c, c, c, c, call("yy_delete_buffer", "(yybuffer) %s->slot[cur]" % c),
+                     call("yypush_buffer_state", "(yybuffer) %s->slot[s]" % c), c, c))
         # the file behind a buffer is read again from its start: rewind + yy_flush_buffer
         H.append("static void vfb_reflush(int s%s) { char b[64]; "
                  "if (!%s->slot[s] || %s->slotsrc[s] < 0) { vfb_skip(\"reflush\"); return; } "
